@@ -877,8 +877,24 @@ func (pr *Prover) linRaw(v ssa.Value) Lin {
 			}
 		}
 		if have {
-			if isWordInt(x.Type()) {
+			unsignedSub := false
+			if bt, ok := x.Type().Underlying().(*types.Basic); ok && bt.Info()&types.IsUnsigned != 0 && x.Op == token.SUB {
+				unsignedSub = true // a - b on an unsigned type wraps below zero: not an "overflow at huge values"
+			}
+			if isWordInt(x.Type()) && !unsignedSub {
 				return r // lengths and offsets: no overflow (DESIGN §3)
+			}
+			if unsignedSub && isWordInt(x.Type()) {
+				if rlo, _ := pr.rangeOfLin(r); rlo >= 0 {
+					return r // cannot wrap below zero
+				}
+				a := pr.opaque(v)
+				if pr.narrowDefs == nil {
+					pr.narrowDefs = map[string]narrowDef{}
+				}
+				pr.narrowDefs[pr.key(v)] = narrowDef{r, 0, math.MaxFloat64}
+				pr.atomRange(pr.key(v), 0, math.Inf(1))
+				return a
 			}
 			if lo, hi, ok := pr.intTypeRange(x.Type()); ok {
 				rlo, rhi := pr.rangeOfLin(r)
